@@ -385,6 +385,13 @@ func (c *Conn) Next(timeout time.Duration) Event {
 				c.add(ev)
 				return ev
 			}
+			if c.depth == 1 && t.Name.Local == "stream" && t.Name.Space == "http://etherx.jabber.org/streams" {
+				// a stream restart the server did not ask for (the client believes a step succeeded): reported as an
+				// open, so that the script can answer it the way a lenient server would instead of waiting for its end
+				ev := Event{Dir: "recv", Kind: "open", Name: t.Name, Attr: attr, Raw: c.rawFrom(startOff), Err: "unexpected restart"}
+				c.add(ev)
+				return ev
+			}
 			// a complete element: collect to its end
 			var inner bytes.Buffer
 			d := 1
